@@ -219,7 +219,6 @@ def engHistogram (c : Ctx V) (q : OpSem V) (child : OpSem V) : OpSem V :=
           | some (l, ub) => if l == gl then some (⟨ub, x.2⟩ : Bucket V) else none
           | none => none
         if bs.isEmpty then none
-        else if bs.length == 1 then some (g, nan)
         else some (g, bucketQuantile qv bs)) }
 
 mutual
